@@ -14,6 +14,7 @@ type privMod struct {
 }
 
 type modSet struct {
+	book    bool // "all" includes bookkeeping ghosts (unknown code may run contract-bearing functions)
 	all     bool
 	heapAll bool
 	keys    map[string]bool
@@ -24,6 +25,9 @@ type modSet struct {
 func newModSet() *modSet { return &modSet{keys: map[string]bool{}, priv: map[*ssa.Alloc]bool{}} }
 
 func (m *modSet) union(o *modSet) {
+	if o.book {
+		m.book = true
+	}
 	if o.all {
 		m.all = true
 		if m.why == "" {
@@ -54,6 +58,7 @@ func (c *modsetCache) funcMods(fn *ssa.Function) *modSet {
 	if c.active[fn] {
 		m := newModSet()
 		m.all = true
+		m.book = true
 		m.why = "recursion through " + fn.String()
 		return m
 	}
@@ -312,6 +317,7 @@ func (c *modsetCache) callMods(fr *frame, fn *ssa.Function, cc *ssa.CallCommon, 
 			return
 		}
 		m.all = true
+		m.book = true
 		m.why = key
 		return
 	}
@@ -323,10 +329,34 @@ func (c *modsetCache) callMods(fr *frame, fn *ssa.Function, cc *ssa.CallCommon, 
 		return
 	}
 	m.all = true
+	if !c.e.cannotCallBack(cc, callee) {
+		m.book = true
+	}
 	if key == "" {
 		key = "dynamic call in " + fn.String()
 	}
 	m.why = key
+}
+
+// cannotCallBack: a statically known function outside the repository that is
+// handed no function or interface value cannot run repository code, hence
+// cannot reach any contract that changes a bookkeeping ghost.
+func (e *encoder) cannotCallBack(cc *ssa.CallCommon, callee *ssa.Function) bool {
+	if callee == nil || cc.IsInvoke() || e.inRepo(callee) {
+		return false
+	}
+	for _, a := range cc.Args {
+		switch a.Type().Underlying().(type) {
+		case *types.Signature, *types.Interface:
+			return false
+		case *types.Slice:
+			// variadic ...interface{} and similar
+			if _, ok := a.Type().Underlying().(*types.Slice).Elem().Underlying().(*types.Interface); ok {
+				return false
+			}
+		}
+	}
+	return true
 }
 
 func itoa(i int) string { return strconv.Itoa(i) }
@@ -434,7 +464,9 @@ func (c *modsetCache) modSpecKeys(ms ModSpec, ptypes map[string]types.Type, m *m
 // applyMods havocs the state components in ms.
 func (fr *frame) applyMods(st *State, ms *modSet, why string) {
 	vc := fr.vc()
-	if ms.all {
+	if ms.all && !ms.book {
+		fr.havocEverythingBut(st, ms.why+" ("+why+")")
+	} else if ms.all {
 		fr.havocEverything(st, false, ms.why+" ("+why+")")
 	} else if ms.heapAll {
 		fr.havocEverything(st, true, ms.why+" ("+why+")")
